@@ -100,8 +100,12 @@ static void victim (int tid) {
 	__atomic_fetch_add (&S.victim_done, 1, __ATOMIC_ACQ_REL);
 }
 
+/* loop guards: by iteration count under the serialized scheduler, by wall clock (generous: the machine may be heavily loaded and the
+   victims sleep 300 us after every wake-up) with free-running threads */
+static int overdue (int *guard, int64_t t0) { return (rt_mode_b () ? ++*guard > 3000000 : ((++*guard & 1023) == 0 && rt_now_ns () - t0 > 240ll * 1000000000ll)); }
+
 static void barger (int tid) {
-	int reader = (S.mix == 2), guard = 0;
+	int reader = (S.mix == 2), guard = 0; int64_t t0 = rt_now_ns ();
 	(void) tid;
 	while (__atomic_load_n (&S.victim_done, __ATOMIC_ACQUIRE) < S.nvict) {
 		int r, v;
@@ -127,12 +131,12 @@ static void barger (int tid) {
 			__atomic_store_n (&S.window, 1, __ATOMIC_RELEASE);
 		} else { rt_cover (CV_BARGE_FAIL); rt_yield (); }
 		for (v = 0; v < S.nvict; v++) check_overtaken (v);
-		if (++guard > 3000000) rt_fatal ("barger loop did not end");
+		if (overdue (&guard, t0)) rt_fatal ("barger loop did not end");
 	}
 }
 /* mix 4: a thread that keeps arriving through the BLOCKING entry point: every call is a fresh, never-queued attempt */
 static void fresh_locker (int tid) {
-	int guard = 0;
+	int guard = 0; int64_t t0 = rt_now_ns ();
 	while (__atomic_load_n (&S.victim_done, __ATOMIC_ACQUIRE) < S.nvict) {
 		/* only when the mutex looks free: otherwise this thread would just queue behind the victim for the rest of the round */
 		if ((sc_word (&S.mu.word) & SC_MU_ANY_LOCK) == 0 && __atomic_exchange_n (&S.window, 0, __ATOMIC_ACQ_REL)) {
@@ -147,7 +151,7 @@ static void fresh_locker (int tid) {
 		}
 		rt_yield ();
 		if (!rt_mode_b () && (guard & 15) == 0) rt_sleep_us (20);
-		if (++guard > 3000000) rt_fatal ("fresh locker loop did not end");
+		if (overdue (&guard, t0)) rt_fatal ("fresh locker loop did not end");
 	}
 }
 static void body (int tid) { if (is_victim (tid)) victim (tid); else if (S.mix == 4 && tid == S.nvict + S.nbarg - 1 && S.nbarg > 1) fresh_locker (tid); else barger (tid); }
